@@ -202,7 +202,8 @@ func genNS(t *rapid.T) nsSpec {
 	return s
 }
 
-func genCase(t *rapid.T, nNS0 int) caseT {
+func genCase(t *rapid.T, ns0 []uint32) caseT {
+	nNS0 := len(ns0)
 	var c caseT
 	c.NS = genNS(t)
 	for i, nd := range c.NS.Nodes {
@@ -239,7 +240,7 @@ func genCase(t *rapid.T, nNS0 int) caseT {
 	}
 	for j := 0; j < 12; j++ {
 		q := query{NKind: "ns0", NID: uint32(rapid.IntRange(0, nNS0-1).Draw(t, "ns0idx"))}
-		q.NID = fix.ns0[q.NID]
+		q.NID = ns0[q.NID]
 		k := rapid.IntRange(1, 3).Draw(t, "qperns0")
 		for x := 0; x < k; x++ {
 			qq := q
@@ -275,13 +276,34 @@ var (
 	nsNo    atomic.Uint64
 )
 
+// resetFixture drops the server so that the next case starts a fresh one. Every
+// case adds reference types below HasComponent / Organizes / NonHierarchicalReferences
+// of namespace 0 (the server API cannot remove them); the server walks the whole
+// subtype tree once per reference of a browsed node, so an ever growing tree only
+// slows the campaign down.
+func resetFixture() {
+	old := fix
+	fix = fixture{}
+	fixOnce = sync.Once{}
+	go func() {
+		if old.cli != nil {
+			ctx, cancel := context.WithTimeout(context.Background(), 10*time.Second)
+			defer cancel()
+			_ = old.cli.Close(ctx)
+		}
+		if old.srv != nil {
+			old.srv.Close()
+		}
+	}()
+}
+
 func getFixture() (*fixture, error) {
 	fixOnce.Do(func() {
 		fix.srv, fixErr = stack.StartServer(stack.ServerOpts{})
 		if fixErr != nil {
 			return
 		}
-		fix.cli, fixErr = stack.Connect(fix.srv.URL, opcua.SecurityMode(ua.MessageSecurityModeNone), opcua.RequestTimeout(30*time.Second))
+		fix.cli, fixErr = stack.Connect(fix.srv.URL, opcua.SecurityMode(ua.MessageSecurityModeNone), opcua.RequestTimeout(120*time.Second))
 		if fixErr != nil {
 			return
 		}
@@ -713,7 +735,8 @@ func runGroup(ctx context.Context, b *browser, w *world, test string, journalCas
 	res, err := b.browse(ctx, descs)
 	rec.JournalDone(test)
 	if err != nil {
-		if sc, ok := err.(ua.StatusCode); ok {
+		// ua.StatusBadTimeout is produced by the client when no answer arrived in time: not an answer of the server
+		if sc, ok := err.(ua.StatusCode); ok && sc != ua.StatusBadTimeout {
 			return verdict{msg: fmt.Sprintf("browse of %v with %d descriptions was answered with the service fault %v", node, len(descs), sc)}
 		}
 		return verdict{infra: "browse: " + err.Error()}
@@ -881,8 +904,13 @@ func TestBrowseGenerated(t *testing.T) {
 	if err != nil {
 		t.Fatalf("infrastructure: %v", err)
 	}
+	ns0 := append([]uint32{}, f.ns0...) // the same for every server instance (imported nodeset)
+	ncases := 0
 	rapid.Check(t, func(t *rapid.T) {
-		c := genCase(t, len(f.ns0))
+		if ncases++; ncases%40 == 0 {
+			resetFixture()
+		}
+		c := genCase(t, ns0)
 		failing = nil
 		v := runCase(c, "TestBrowseGenerated")
 		if v.infra != "" {
@@ -904,7 +932,7 @@ func TestBrowseGenerated(t *testing.T) {
 }
 
 // TestBrowseNS0 enumerates namespace 0: every node in the thorough tier, every
-// 12th node (offset by the seed) plus the well-known hubs in the quick tier;
+// 6th node (offset by the seed) plus the well-known hubs in the quick tier;
 // per node all directions x 12 reference types x includeSubtypes, the class mask
 // cycling through a fixed list.
 func TestBrowseNS0(t *testing.T) {
@@ -930,7 +958,7 @@ func TestBrowseNS0(t *testing.T) {
 	hubs := map[uint32]bool{id.RootFolder: true, id.ObjectsFolder: true, id.TypesFolder: true, id.ViewsFolder: true, id.Server: true, id.References: true,
 		id.HierarchicalReferences: true, id.HasComponent: true, id.Organizes: true, id.BaseObjectType: true, id.BaseVariableType: true, id.BaseDataType: true,
 		id.BaseEventType: true, id.ServerType: true, id.FolderType: true, id.Number: true, id.Server_ServerStatus: true}
-	step, off := 12, int(ev.Seed()%12)
+	step, off := 6, int(ev.Seed()%6)
 	if ev.Thorough() {
 		step, off = 1, 0
 	}
